@@ -116,10 +116,12 @@ def create (env : Env H) (a : Account H) (st : State H) : Bool × State H :=
   if !nameOK env f || (st.disk.get f).isSome then (false, st)
   else (true, ⟨st.mem.set a.login a, st.disk.set f a⟩)
 
-/-- `Update(account, newLogin)`: on a login change rename the file and move the map entry
-    (the old key is removed), then replace the file (temp + rename) and store the entry. -/
+/-- `Update(account, newLogin)`: on a login change — refused when the new login already exists
+    (fix 5d2c023) — rename the file and move the map entry (the old key is removed), then replace
+    the file (temp + rename) and store the entry. -/
 def update (env : Env H) (a : Account H) (newLogin : Login) (st : State H) : Bool × State H :=
   if a.login ≠ newLogin then
+    if (st.mem.get newLogin).isSome then (false, st) else
     let fo := fileU a.login
     let fn := fileU newLogin
     match st.disk.get fo with
@@ -417,19 +419,21 @@ theorem update_inv (env : Env H) (a : Account H) (n : Login) (st : State H) (h :
     · exact h
     · split
       · exact h
-      · -- extensionally: delete the old login, then store the renamed account
-        have h1 := (h.del a.login).set { a with login := n } hn
-        refine Inv.congr ?_ ?_ h1
-        · intro k
-          simp only [AMap.get_set, AMap.get_del]
-          by_cases ek : k = n
-          · simp [ek]
-          · simp [ek]
-        · intro k
-          simp only [AMap.get_set, AMap.get_del]
-          by_cases ek : k = n ++ yamlExt
-          · simp [ek]
-          · simp [ek]
+      · split
+        · exact h
+        · -- extensionally: delete the old login, then store the renamed account
+          have h1 := (h.del a.login).set { a with login := n } hn
+          refine Inv.congr ?_ ?_ h1
+          · intro k
+            simp only [AMap.get_set, AMap.get_del]
+            by_cases ek : k = n
+            · simp [ek]
+            · simp [ek]
+          · intro k
+            simp only [AMap.get_set, AMap.get_del]
+            by_cases ek : k = n ++ yamlExt
+            · simp [ek]
+            · simp [ek]
 
 theorem handleNewUser_inv (env : Env H) (fs : List Field) (st : State H) (h : Inv st)
     (hl : LegalLogin (obfuscate (fieldData 105 fs))) : Inv (handleNewUser env fs st).1 := by
@@ -643,13 +647,15 @@ theorem update_hashed (env : Env H) (a : Account H) (n : Login) (st : State H) (
     · exact h
     · split
       · exact h
-      · intro k b hb
-        simp only [AMap.get_set, AMap.get_del] at hb
-        split at hb
-        · cases hb; exact ha
-        · split at hb
-          · cases hb
-          · exact h k b hb
+      · split
+        · exact h
+        · intro k b hb
+          simp only [AMap.get_set, AMap.get_del] at hb
+          split at hb
+          · cases hb; exact ha
+          · split at hb
+            · cases hb
+            · exact h k b hb
   · dsimp only
     split
     · exact h
@@ -770,17 +776,23 @@ theorem update_same (env : Env H) (a : Account H) (st : State H) (hl : LegalLogi
   rw [nameOK_legal env hl hlen]
   simp
 
-/-- `Update` with a login change: the old login disappears, the new one holds the account. -/
+/-- `Update` onto a login that exists is refused: nothing changes (fix 5d2c023). -/
+theorem update_rename_existing (env : Env H) (a : Account H) (n : Login) (st : State H)
+    (hne : a.login ≠ n) (hex : (st.mem.get n).isSome) : update env a n st = (false, st) := by
+  unfold update
+  rw [if_pos hne, if_pos hex]
+
+/-- `Update` with a login change onto a free login: the old login disappears, the new one holds the account. -/
 theorem update_rename (env : Env H) (a : Account H) (n : Login) (st : State H) (old : Account H)
-    (ha : LegalLogin a.login) (hn : LegalLogin n) (hne : a.login ≠ n)
+    (ha : LegalLogin a.login) (hn : LegalLogin n) (hne : a.login ≠ n) (hfree : st.mem.get n = none)
     (hd : st.disk.get (a.login ++ yamlExt) = some old) (hlen : (n ++ yamlExt).length ≤ env.nameMax) :
     ∃ st', update env a n st = (true, st') ∧
       (∀ k, st'.mem.get k = if k = n then some { a with login := n } else if k = a.login then none else st.mem.get k) ∧
       (∀ f, st'.disk.get f = if f = n ++ yamlExt then some { a with login := n }
                               else if f = a.login ++ yamlExt then none else st.disk.get f) := by
   unfold update
-  rw [if_pos hne, fileU_legal ha, fileU_legal hn]
-  dsimp only
+  rw [if_pos hne, hfree, fileU_legal ha, fileU_legal hn]
+  simp only [Option.isSome_none, Bool.false_eq_true, if_false]
   rw [hd]
   dsimp only
   rw [nameOK_legal env hn hlen]
